@@ -263,6 +263,51 @@ pub fn spaces(tier: Tier) -> Vec<Space<'static>> {
             }
         }
     }));
+    // the same relation through documents: jsonb::compare on the encoded numbers (bare and as the
+    // only element of an array), and the number's way through the Value encoder and from_slice
+    {
+        let docs: std::sync::Arc<Vec<(Vec<u8>, Vec<u8>)>> = std::sync::Arc::new(b64.iter().map(|n| (enc(&RVal::Num(*n)), enc(&RVal::Arr(vec![RVal::Num(*n)])))).collect());
+        let d1 = docs.clone();
+        sp.push(Space::new("order-b64xb64 through documents (compare on encoded numbers, bare and in an array)", n as u64, move |i, acc| {
+            let a = b64[i as usize];
+            for (j, b) in b64.iter().enumerate() {
+                acc.eval();
+                let exp = num_cmp(&a, b);
+                let r = guard(|| (jsonb::compare(&d1[i as usize].0, &d1[j].0), jsonb::compare(&d1[i as usize].1, &d1[j].1)));
+                match r {
+                    Ok((Ok(x), Ok(y))) if x == exp && y == exp => {}
+                    other => acc.vio("order:compare-on-number-documents-differs-from-exact-value", || json!({"a": format!("{:?}", a), "b": format!("{:?}", b), "expected": format!("{:?}", exp), "observed": format!("{:?}", other.map_err(|p| panic_class(&p)))})),
+                }
+            }
+        }));
+        sp.push(Space::new("codec-b64 through the Value encoder and from_slice", n as u64, move |i, acc| {
+            let nmod = b64[i as usize];
+            acc.eval();
+            acc.nontrivial += 1;
+            let v = jsonb::Value::Number(to_num(&nmod));
+            for (wrapped, val, expect) in [(false, v.clone(), &docs[i as usize].0), (true, jsonb::Value::Array(vec![v.clone()]), &docs[i as usize].1)] {
+                match guard(|| val.to_vec()) {
+                    Err(p) => acc.vio(&format!("codec:Value::to_vec:{}", panic_class(&p)), || json!({"number": format!("{:?}", nmod)})),
+                    Ok(bytes) => {
+                        if bytes != *expect {
+                            acc.vio("codec:Value-encoder-bytes-differ-from-model", || json!({"number": format!("{:?}", nmod), "in_array": wrapped, "expected": hex(expect), "observed": hex(&bytes)}));
+                        }
+                        match guard(|| jsonb::from_slice(&bytes).map(|t| crate::conv::from_value_raw(&t))) {
+                            Ok(Ok(back)) => {
+                                let want = if wrapped { RVal::Arr(vec![RVal::Num(nmod)]) } else { RVal::Num(nmod) };
+                                // NUMBER_ZERO decodes as unsigned zero: the one documented collapse
+                                let want = if nmod == RNum::I(0) { if wrapped { RVal::Arr(vec![RVal::u(0)]) } else { RVal::u(0) } } else { want };
+                                if back != want {
+                                    acc.vio("codec:number-changes-through-Value-encoder-and-from_slice", || json!({"number": format!("{:?}", nmod), "decoded": format!("{:?}", back)}));
+                                }
+                            }
+                            other => acc.vio("codec:from_slice-rejects-encoded-number", || json!({"number": format!("{:?}", nmod), "observed": format!("{:?}", other.map_err(|p| panic_class(&p)))})),
+                        }
+                    }
+                }
+            }
+        }));
+    }
     // laws on the implementation's own matrix (independent of the model)
     sp.push(Space::new("order-laws-b64", 1, move |_, acc| {
         let nums: Vec<Number> = b64.iter().map(to_num).collect();
